@@ -107,8 +107,14 @@ pub fn check_literal(case: &StrCase, ctx: &mut Ctx) -> Verdict {
         }
         let tok = io.tokens.as_ref().unwrap();
         let ana = io.analyze.as_ref().unwrap();
+        // "tokenize, analyze and replace_all work for every non-empty literal": a panic is a failure of this property too
         if tok.is_panic() || ana.is_panic() || io.replace.iter().any(|r| r.is_panic()) {
-            return Verdict::Skip("panic");
+            return fail("api-panics-on-literal", "all APIs work on any literal".into(), format!("tokenize={tok:?} analyze={ana:?} replace_all={:?}", io.replace));
+        }
+        if let (Res::Ok(t), Res::Ok(a)) = (tok, ana) {
+            if t.panic.is_some() || a.panic.is_some() {
+                return fail("api-panics-on-literal", "all APIs work on any literal".into(), format!("iterator step panicked: tokenize={:?} analyze={:?}", t.panic, a.panic));
+            }
         }
         if pat.is_empty() {
             // the empty literal matches the empty string
